@@ -672,4 +672,88 @@ def writeToSlice (cfg : Cfg) (cap : Nat) (payload : Bytes) : SliceRes :=
     | .error f => .fail f.err
     | .ok out => if out.length ≤ required then .ok required out else .overflow
 
+/-! ## well-formed configurations and encodability (hypotheses of the C10 theorems) -/
+
+/-- a predicate on the content of an `Option` (vacuous for `none`) -/
+def optP {α} (p : α → Prop) : Option α → Prop
+  | none => True
+  | some x => p x
+
+instance {α} (p : α → Prop) [DecidablePred p] (o : Option α) : Decidable (optP p o) := by
+  cases o <;> unfold optP <;> infer_instance
+
+/-- the fixed array sizes of the ICMP types (`[u8;4]` fields); numeric fields need no bound for
+    the builder theorems (every narrowing in `to_bytes` is explicit). -/
+def icmp4LenOk : Icmp4Type → Prop
+  | .unknown _ _ b => b.length = 4
+  | .redirect _ g => g.length = 4
+  | _ => True
+def icmp6LenOk : Icmp6Type → Prop
+  | .unknown _ _ b => b.length = 4
+  | _ => True
+instance (t : Icmp4Type) : Decidable (icmp4LenOk t) := by cases t <;> unfold icmp4LenOk <;> infer_instance
+instance (t : Icmp6Type) : Decidable (icmp6LenOk t) := by cases t <;> unfold icmp6LenOk <;> infer_instance
+
+def Ipv6Routing.WF (r : Ipv6Routing) : Prop := r.routing.WF ∧ optP Ipv6RawExtHeader.WF r.finalDest
+instance (r : Ipv6Routing) : Decidable r.WF := by unfold Ipv6Routing.WF; infer_instance
+
+def Ipv6Exts.WF (e : Ipv6Exts) : Prop :=
+  optP Ipv6RawExtHeader.WF e.hbh ∧ optP Ipv6RawExtHeader.WF e.dest ∧ optP Ipv6Routing.WF e.routing ∧
+  optP Ipv6FragmentHeader.WF e.fragment ∧ optP IpAuthHeader.WF e.auth
+instance (e : Ipv6Exts) : Decidable e.WF := by unfold Ipv6Exts.WF; infer_instance
+
+/-- the header types' own invariants (C08 `WF`); for SLL additionally what `linux_sll` sets. -/
+def Link.WF : Link → Prop
+  | .eth2 h => h.WF
+  | .sll s => s.WF ∧ s.hrd = 1
+instance (l : Link) : Decidable l.WF := by cases l <;> unfold Link.WF <;> infer_instance
+
+def VlanH.WF : VlanH → Prop
+  | .single v => v.WF
+  | .double o i => o.WF ∧ i.WF
+instance (v : VlanH) : Decidable v.WF := by cases v <;> unfold VlanH.WF <;> infer_instance
+
+def Net.WF : Net → Prop
+  | .arp p => p.WF
+  | .ipv4 h e => h.WF ∧ optP IpAuthHeader.WF e.auth
+  | .ipv6 h e => h.WF ∧ e.WF
+instance (n : Net) : Decidable n.WF := by cases n <;> unfold Net.WF <;> infer_instance
+
+def Tp.WF : Tp → Prop
+  | .udp h => h.WF
+  | .tcp h => h.WF
+  | .icmp4 h => icmp4LenOk h.ty
+  | .icmp6 h => icmp6LenOk h.ty
+instance (t : Tp) : Decidable t.WF := by cases t <;> unfold Tp.WF <;> infer_instance
+
+/-- every value the typed builder API can hold satisfies this (checked constructors, fixed size
+    arrays, machine integer ranges). -/
+def Cfg.WF (c : Cfg) : Prop :=
+  optP Link.WF c.link ∧ optP VlanH.WF c.vlan ∧ c.net.WF ∧ optP Tp.WF c.tp ∧ c.last < 256
+instance (c : Cfg) : Decidable c.WF := by unfold Cfg.WF; infer_instance
+
+/-- length of the extension headers of the net layer -/
+def Net.extsLen : Net → Nat
+  | .arp _ => 0
+  | .ipv4 _ e => e.headerLen
+  | .ipv6 _ e => e.headerLen
+
+/-- what the IP length field has to cover: extension headers, transport header, payload -/
+def innerLen (c : Cfg) (n : Nat) : Nat := c.net.extsLen + tpHeaderLen c.tp + n
+
+def isIcmp6 : Option Tp → Bool
+  | some (.icmp6 _) => true
+  | _ => false
+
+/-- the configuration can be encoded with a payload of `n` bytes: the IPv4 total length / IPv6
+    payload length field can hold the real size (this also bounds the UDP length and the TCP
+    pseudo header length), and ICMPv6 is not put into IPv4.  ARP has no length field. -/
+def Encodable (c : Cfg) (n : Nat) : Prop :=
+  match c.net with
+  | .arp _ => True
+  | .ipv4 ip _ => 20 + ip.options.length + innerLen c n ≤ 65535 ∧ isIcmp6 c.tp = false
+  | .ipv6 _ _ => innerLen c n ≤ 65535
+instance (c : Cfg) (n : Nat) : Decidable (Encodable c n) := by
+  unfold Encodable; split <;> infer_instance
+
 end EpModel.Builder
